@@ -344,7 +344,7 @@ impl Property for C02 {
     const ID: &'static str = "C02";
     const RULE: &'static str = "proptest-generated valid response (payload x framing x segmentation) plus one fault: connection cut (every offset of wires <= 700 bytes \
 inside one case, else structural offsets +-2 / random), injected I/O error (reset, timed-out, would-block, interrupted; then resume / keep failing / EOF), or a corrupted \
-chunk-framing byte; then a read plan plus 0..6 further reads after the first error; invariants I1-I4 over the read history. non-trivial = fault offset inside the body frame \
+chunk-framing byte; then a read plan plus 0..6 further reads after the first error; invariants I1-I4 over the read history, plus: an injected error other than Interrupted that lies where the client must read through it surfaces as Err before any clean end. non-trivial = fault offset inside the body frame \
 or >=1 read issued after the first error; distinct by hash of the serialised case; evaluations counts executed sub-cases (one per cut offset)";
 
     fn assumptions() -> Vec<String> {
